@@ -86,7 +86,7 @@ def apply_damage(d, case, sizes, rnd):
             return None
         e = case["entry"] or 1
         loc = _locate(d, e) if e in sizes else None
-        if region in ("metalen", "body", "payload", "header", "entry_start", "mid_header", "mid_payload", "entry_end", "probe") and not loc:
+        if region in ("metalen", "body", "body8", "payload", "header", "entry_start", "mid_header", "mid_payload", "entry_end", "probe") and not loc:
             return None
         if region == "probe":
             fn, hdr, pay = loc
@@ -106,6 +106,10 @@ def apply_damage(d, case, sizes, rnd):
             b = cur(path, off)[0]
             patch(path, off, bytes([b ^ 0x5A if kind == "flip" else (0 if kind == "zero" else 0xFF)]))
             return "header byte %d of entry %d %s" % (case["pos"], e, kind)
+        if region == "body8":
+            fn, hdr, pay = loc
+            patch(os.path.join(d, fn), hdr + case["pos"], (b"\x00" if kind == "zero" else b"\xff") * 8)
+            return "header bytes %d..%d of entry %d %s" % (case["pos"], case["pos"] + 7, e, kind)
         if region == "payload":
             fn, hdr, pay = loc
             if sizes[e] <= case["pos"]:
@@ -216,7 +220,7 @@ def c11(tier):
             prepared[beh["id"]] = (beh, os.path.join(d, "data", "b0"), evs, sizes)
     # 2) damage + open
     todo = []
-    sample = cases if tier == "thorough" else [c for i, c in enumerate(cases) if c["region"] != "body" or c["pos"] % 3 == (C.seed() % 3)]
+    sample = cases if tier == "thorough" else [c for i, c in enumerate(cases) if c["region"] not in ("body", "body8") or c["pos"] % 3 == (C.seed() % 3)]
     for bid, (beh, base, evs, sizes) in prepared.items():
         for ci, case in enumerate(sample):
             todo.append((bid, ci, case))
